@@ -126,4 +126,10 @@ void m_re_flags(void) { char *s = &str_buf[0]; PM_RE_T1 u; u.p = &s; int opt = n
   r = PM_RE(&m2, &u);
   __CPROVER_assert(rx_ctor_calls == 1 && r == re_result && re_calls == 1 && rs_flags == mt, "[C10] POST re.the_two_argument_form_passes_the_match_flags");
   __CPROVER_assert(0, "REACH! re_flags"); }
+/* *m on a smart pointer (std::unique_ptr<int>) */
+void m_deref_smart(void) { init_abs(); int x = nondet_int(); in_x = x; in_pnull = nondet_bool(); int *up = !in_pnull ? &x : (int *)0; PM_DEREF_UP_T1 u; u.p = &up; PM_DEREF_UP_T0 m; _Bool r = PM_DEREF_UP(&m, &u);
+  __CPROVER_assert(r == (up != 0 && in_ans[1]), "[C10] POST deref_of_a_smart_pointer_accepts_iff_non_null_and_operand_accepts_the_pointee");
+  __CPROVER_assert(up != 0 || abs_calls[1] == 0, "[C10] POST deref_never_evaluates_the_operand_on_a_null_smart_pointer");
+  __CPROVER_assert(up == 0 || (abs_calls[1] == 1 && abs_arg[1] == &x), "[C10] POST deref_of_a_smart_pointer_passes_the_pointee");
+  __CPROVER_assert(up != 0, "REACH deref_smart.null"); __CPROVER_assert(0, "REACH! deref_smart"); }
 int main(void) { VP_ENTRY(); return 0; }
